@@ -53,16 +53,24 @@ type Case struct {
 type answer struct {
 	verdict     spec.ArgVerdict
 	rejectClass string // key class if a must-reject case is accepted
-	why         string
+	whyFormat   string // rendered only when a finding is reported (hot loops)
+	whyArgs     []any
 	// wire, when set, checks the recorded request of an accepted call; returns (class, what) or "".
 	wire func(request []byte) (string, string)
 }
 
 func accept() answer { return answer{verdict: spec.ArgMustAccept} }
-func reject(class, why string) answer {
-	return answer{verdict: spec.ArgMustReject, rejectClass: class, why: why}
+func reject(class, why string, args ...any) answer {
+	return answer{verdict: spec.ArgMustReject, rejectClass: class, whyFormat: why, whyArgs: args}
 }
-func unconstrained(why string) answer { return answer{verdict: spec.ArgUnconstrained, why: why} }
+func unconstrained(why string) answer { return answer{verdict: spec.ArgUnconstrained, whyFormat: why} }
+
+func (a answer) why() string {
+	if len(a.whyArgs) == 0 {
+		return a.whyFormat
+	}
+	return fmt.Sprintf(a.whyFormat, a.whyArgs...)
+}
 
 const baseID uint32 = 405419896
 
@@ -214,11 +222,11 @@ func reference(c *Case) answer {
 		case card == 0x00ffffff:
 			return reject("card-number-0x00ffffff-accepted", "card number 0x00ffffff must be rejected")
 		case !spec.CardFormatsMatch(card, kinds):
-			return reject(cardClass(card, kinds, true), fmt.Sprintf("card number %v matches none of the formats %v", card, c.Formats))
+			return reject(cardClass(card, kinds, true), "card number %v matches none of the formats %v", card, c.Formats)
 		case pin == 1000000:
 			return reject("pin-1000000-accepted", "PIN 1000000 is above 999999")
 		case !spec.PINAllowed(pin):
-			return reject("pin-above-1000000-accepted", fmt.Sprintf("PIN %v is above 999999", pin))
+			return reject("pin-above-1000000-accepted", "PIN %v is above 999999", pin)
 		}
 		return accept()
 
@@ -254,7 +262,7 @@ func reference(c *Case) answer {
 				ip = c.IPs[i]
 			}
 			if !spec.IPv4Bytes(mkBytes(ip)) {
-				return reject("non-ipv4-"+names[i]+"-accepted", fmt.Sprintf("%v %v is not an IPv4 value", names[i], ip))
+				return reject("non-ipv4-"+names[i]+"-accepted", "%v %v is not an IPv4 value", names[i], ip)
 			}
 		}
 		return accept()
@@ -271,7 +279,7 @@ func reference(c *Case) answer {
 		case door == 5:
 			return reject("door-5-accepted", "door 5 is outside 1..4")
 		case !spec.DoorAllowed(door):
-			return reject("door-above-5-accepted", fmt.Sprintf("door %v is outside 1..4", door))
+			return reject("door-above-5-accepted", "door %v is outside 1..4", door)
 		}
 		a := accept()
 		want := spec.EffectivePasscodes(passcodes)
@@ -320,9 +328,9 @@ func reference(c *Case) answer {
 			}
 			for i, s := range segs {
 				if !s.Present {
-					return reject("missing-segment-accepted", fmt.Sprintf("segment %v is missing", i+1))
+					return reject("missing-segment-accepted", "segment %v is missing", i+1)
 				} else if s.End < s.Start {
-					return reject("segment-end-before-start-accepted", fmt.Sprintf("segment %v ends (%v) before it starts (%v)", i+1, s.End, s.Start))
+					return reject("segment-end-before-start-accepted", "segment %v ends (%v) before it starts (%v)", i+1, s.End, s.Start)
 				}
 			}
 		}
@@ -532,7 +540,7 @@ func judge(c *Case, a answer, o outcome) *finding {
 		if o.err != nil {
 			e = o.err.Error()
 		}
-		return fmt.Sprintf("error=%q, driver calls=%v; reference: %v %v", e, o.calls, a.verdict, a.why)
+		return fmt.Sprintf("error=%q, driver calls=%v; reference: %v %v", e, o.calls, a.verdict, a.why())
 	}
 
 	switch {
